@@ -194,6 +194,71 @@ pub fn family<F: VF>(ctx: &mut Ctx) {
         ctx.guarded(&idp.clone(), FILES, |ctx| one::<F>(ctx, &idp, q, th));
     }
     shape::<F>(ctx);
+    compressed_shape(ctx);
+}
+
+const COMP_FILES: &[&str] = &[
+    "plonky2/src/plonk/proof.rs::CompressedProofWithPublicInputs::verify",
+    "plonky2/src/plonk/proof.rs::ProofWithPublicInputs::compress",
+    "plonky2/src/plonk/circuit_data.rs::CircuitData::verify_compressed",
+    "plonky2/src/plonk/validate_shape.rs::validate_proof_with_pis_shape",
+];
+
+/// The compressed verification path on a real (native, concrete) proof: the number of public
+/// inputs is part of the statement. `hash_no_pad([a, 0]) == hash_no_pad([a]) == hash_no_pad([a, 0, 0])`
+/// (overwrite-mode sponge without padding), so only the explicit count check rejects a dropped or
+/// appended zero public input. Concrete structure: evaluated facts on the real end-to-end API.
+fn compressed_shape(ctx: &mut Ctx) {
+    use plonky2::plonk::circuit_data::CircuitConfig;
+    use plonky2::plonk::config::PoseidonGoldilocksConfig as C;
+    use plonky2_field::goldilocks_field::GoldilocksField as G;
+    ctx.guarded("C03.S.plonkv.compressed", COMP_FILES, |ctx| {
+        let mut b = plonky2::plonk::circuit_builder::CircuitBuilder::<G, 2>::new(CircuitConfig::standard_recursion_config());
+        let x = b.add_virtual_target();
+        let y = b.add_virtual_target();
+        let z = b.mul(x, y);
+        let t = b.sub(z, z);
+        b.register_public_input(z);
+        b.register_public_input(t);
+        let data = b.build::<C>();
+        let mut pw = PartialWitness::<G>::new();
+        pw.set_target(x, G::from_canonical_u64(7)).unwrap();
+        pw.set_target(y, G::ONE).unwrap();
+        let proof = data.prove(pw).expect("honest proof");
+        let honest_ok = data.verify(proof.clone()).is_ok();
+        let comp = data.compress(proof.clone()).expect("compress");
+        let comp_ok = data.verify_compressed(comp.clone()).is_ok();
+        let mut goals = vec![A::Bool(honest_ok), A::Bool(comp_ok), A::Bool(proof.public_inputs == vec![G::from_canonical_u64(7), G::ZERO])];
+        let mut accepted: Vec<String> = vec![];
+        let variants: Vec<(&str, Vec<G>)> = vec![
+            ("drop trailing zero", vec![G::from_canonical_u64(7)]),
+            ("append zero", vec![G::from_canonical_u64(7), G::ZERO, G::ZERO]),
+            ("pad to 8", { let mut v = vec![G::from_canonical_u64(7)]; v.resize(8, G::ZERO); v }),
+            ("empty", vec![]),
+        ];
+        for (name, pis) in variants {
+            let mut p = proof.clone();
+            p.public_inputs = pis.clone();
+            let plain_rejected = data.verify(p).is_err();
+            let mut c = comp.clone();
+            c.public_inputs = pis;
+            let comp_rejected = data.verify_compressed(c).is_err();
+            if !plain_rejected {
+                accepted.push(format!("verify: {name}"));
+            }
+            if !comp_rejected {
+                accepted.push(format!("verify_compressed: {name}"));
+            }
+            goals.push(A::Bool(plain_rejected));
+            goals.push(A::Bool(comp_rejected));
+        }
+        ctx.add(
+            Ob::new("C03.S.plonkv.compressed.public-input-count", COMP_FILES, "one native proof (GoldilocksField, Poseidon config) of a 2-public-input circuit with public inputs [7, 0]; four public-input lists of a different length whose no-pad hash equals the original's; concrete structure")
+                .sample(format!("verify and verify_compressed accept the honest proof and reject every public-input list of a different length; accepted: {accepted:?}"))
+                .goals(goals)
+                .key("compressed-verifier:public-input-count-unchecked"),
+        );
+    });
 }
 
 fn one<F: VF>(ctx: &mut Ctx, idp: &str, query: usize, th: bool) {
